@@ -146,10 +146,16 @@ def run_text(R, family, text, mols, base=None, base_text=None):
     for smi, m, g in mols:
         st = {}
         exp = sorted(ringref.ref_matches_g(fr, g, st))
+        na, nb = m.GetNumAtoms(), m.GetNumBonds()
         try:
             got = sorted(tuple(x) for x in q.GetQueryMatches(m))
         except Exception as e:    # noqa
             got = 'EXC:' + type(e).__name__
+        if m.GetNumAtoms() != na or m.GetNumBonds() != nb:
+            R.violation('%s:callers-molecule-modified' % family,
+                        'matching %r changed the molecule object it was given (%s): '
+                        '%d -> %d atoms' % (text, smi, na, m.GetNumAtoms()),
+                        dict(kind='frag', text=text, smiles=None))
         R.evals += 1
         if exp or st.get('relaxed'):
             R.nontrivial += 1
